@@ -1,5 +1,8 @@
 #!/usr/bin/env python3
-"""C07 - condition variables: Lean model CV + theorems Props/C07.lean, tied by E1 (controlled schedules)."""
+"""C07 - condition variables: Lean model CV + theorems Props/C07.lean, tied by E1 (controlled schedules);
+plus (follow-up C07h) the Lean model Agent of pika's default_agent hand-shake + theorems Props/C07Agent.lean,
+tied by a live tier (checks/C07live.py: real OS threads blocking on pika condition variables through the real
+default_agent, exact E2 logs replayed through the acceptor)."""
 import os, sys
 sys.path.insert(0, os.path.join(os.path.dirname(os.path.abspath(__file__)), '..', 'tools'))
 import e1check
@@ -122,6 +125,9 @@ def stats(c, r):
             'deadlock_end': 1 if 'end deadlock' in raw else 0}
 
 
+ORIG_REPLAY = [None]
+
+
 def _unwrap_replay():
     """A replay written by this check is JSON with the case text under 'case'; hand e1check a plain
     case file (build/ is scratch space)."""
@@ -133,6 +139,7 @@ def _unwrap_replay():
             except Exception:
                 return
             if isinstance(d, dict) and 'case' in d:
+                ORIG_REPLAY[0] = sys.argv[i + 1]    # the live tier wants the JSON itself
                 out = os.path.join(e1check.BUILD, 'replay_C07.case')
                 os.makedirs(e1check.BUILD, exist_ok=True)
                 with open(out, 'w') as f:
@@ -140,12 +147,28 @@ def _unwrap_replay():
                 sys.argv[i + 1] = out
 
 
+def live_tier(ctx):
+    sys.path.insert(0, os.path.dirname(os.path.abspath(__file__)))
+    import C07live
+    if ORIG_REPLAY[0]:
+        ctx = dict(ctx, replay=ORIG_REPLAY[0])
+    return C07live.run(ctx)
+
+
+def agent_source_obligations():
+    sys.path.insert(0, os.path.dirname(os.path.abspath(__file__)))
+    import C07live
+    return C07live.source_obligations()
+
+
 _unwrap_replay()
 e1check.run(dict(
-    prop='C07', model='cv', harness='e1/cv.cpp', bin='e1_cv', gen=gen, nontrivial=nontrivial, stats=stats,
+    prop='C07', props=['C07', 'C07Agent'], extra_check=live_tier, extra_obligations=agent_source_obligations, model='cv', harness='e1/cv.cpp', bin='e1_cv', gen=gen, nontrivial=nontrivial, stats=stats,
     quick=6000, thorough=150000, extra=12000,
     rule='random programs (2-6 threads, 1-3 blocks each: waiter blocks lock;wait|wait(pred)|wait_for|wait_for(pred)|wait(stop_token,pred)|wait_for(stop_token,d,pred);unlock, notifier blocks with set/notify_one/notify_all inside or after the critical section, bare notifies, request_stop inside/after/without a critical section) on one pika::condition_variable or condition_variable_any with a user-defined lock (via std::unique_lock or directly) or std::unique_lock<spinlock>, one shared stop_source in about 40 % of the condition_variable_any cases (a few of them on pika tasks instead of OS threads), PRNG schedules (uniform / priority / sticky; a third of the stop-token cases with a directed prefix of 2-4 long single-thread runs, and 1 in 8 of them a preemption-bounded probe: 1-2 stop-token waiters run a chosen number of steps, then request_stop runs to completion), virtual deadlines; non-trivial = at least one thread enqueued on the condition variable; distinct = distinct (program, schedule seed) text',
     assumptions=['the stop state of the stop-token waits is modelled through the interface events of Model/CV.lean (its lock loops are the subject of C14; the stop.* lines of every log are also replayed through C14\'s acceptor); one shared stop_source',
                  'the user lock is modelled as an abstract mutual-exclusion lock; pika::mutex as the user lock (needs pika task identity) is not exercised by the harness',
-                 'predicate state is changed only while holding the user lock (operation set)'],
+                 'predicate state is changed only while holding the user lock (operation set)',
+                 'default_agent (the execution agent of plain OS threads): modelled per agent object (Model/Agent.lean: std::mutex, two std::condition_variables with notification flags and spurious wake-ups, running_/aborted_), tied by the live tier; the OS-level wake-ups of std::condition_variable::wait are not logged (the log has the entry and the exit of each wait), yield_k/spin_k carry no hook (a source scan checks that they, yield and the sleeps mention none of the hand-shake members)',
+                 'live tier: timed waits are exercised through the real default_agent only where nobody notifies them (a timed waiter on an OS thread that is notified before its deadline deadlocks on the pinned tree: finding timed-wait-os-thread-notified-deadlocks, reproduced by a directed run on every check); a run that uses up its wall-clock budget gives no verdict'],
 ))
